@@ -57,6 +57,40 @@ fn run(name: &str) -> String {
             b.extend_from_slice(&c.to_le_bytes());
             format!("{:?}", HllSketch::deserialize(&b).map(|s| s.estimate()))
         }
+        "hll4_curmin_shift_aux" => {
+            // F11: lg_k=4 Hll4 streams; count how many of 2000 400-item streams panic
+            let mut bad = 0;
+            for seed in 0..2000u64 {
+                let r = std::panic::catch_unwind(|| {
+                    let mut s = HllSketch::new(4, HllType::Hll4);
+                    for i in 0..400u64 { s.update(seed * 1_000_003 + i); }
+                    s.estimate()
+                });
+                if r.is_err() { bad += 1; }
+            }
+            format!("panicking streams: {bad} of 2000")
+        }
+        "hll_union_ooo_hll4" | "hll_union_to_sketch_types" => {
+            // build an out-of-order Hll4 sketch: union result converted to Hll4 is out of order
+            let mut a = HllSketch::new(10, HllType::Hll4);
+            let mut b = HllSketch::new(10, HllType::Hll4);
+            for i in 0..3000 { a.update(i); }
+            for i in 2000..5000 { b.update(i); }
+            let mut u = HllUnion::new(10);
+            u.update(&a); u.update(&b);
+            if name == "hll_union_to_sketch_types" {
+                let e: Vec<String> = [HllType::Hll4, HllType::Hll6, HllType::Hll8].iter().map(|t| { let s = u.to_sketch(*t); format!("{:.2}/{:.2}/{:.2}", s.lower_bound(NumStdDev::Two), s.estimate(), s.upper_bound(NumStdDev::Two)) }).collect();
+                format!("{:?}", e)
+            } else {
+                let ooo4 = u.to_sketch(HllType::Hll4);
+                let mut img = ooo4.serialize();
+                img[5] |= 16; // what Java/C++ unions emit: out-of-order flag set
+                let d = HllSketch::deserialize(&img).unwrap();
+                let mut u2 = HllUnion::new(10);
+                u2.update(&d);
+                format!("src_est={:.1} flags={:#x} union_of_it_est={:.1}", d.estimate(), img[5], u2.estimate())
+            }
+        }
         // ---------------- theta
         "theta_v3_huge_count" => {
             let mut b = vec![2u8, 3, 3, 0, 0, 0x1a];
@@ -89,6 +123,12 @@ fn run(name: &str) -> String {
             b.extend_from_slice(&200u64.to_le_bytes());
             format!("{:?}", CompactThetaSketch::deserialize(&b).map(|s| (s.is_empty(), s.num_retained(), s.estimate())))
         }
+        "theta_sampling_all_screened" => {
+            let mut t = ThetaSketch::builder().lg_k(12).sampling_probability(0.0001).build();
+            for i in 0..1000 { t.update(i); }
+            let c = t.compact(true);
+            format!("retained={} is_empty={} est={} ub2={} | compact: empty={} theta64={} ub2={}", t.num_retained(), t.is_empty(), t.estimate(), t.upper_bound(NumStdDev::Two), c.is_empty(), c.theta64(), c.upper_bound(NumStdDev::Two))
+        }
         // ---------------- tdigest
         "td_huge_centroids" => {
             let mut b = vec![2u8, 1, 20]; b.extend_from_slice(&100u16.to_le_bytes()); b.push(0); b.extend_from_slice(&0u16.to_le_bytes());
@@ -102,6 +142,21 @@ fn run(name: &str) -> String {
             b.extend_from_slice(&0f64.to_le_bytes()); b.extend_from_slice(&1f64.to_le_bytes());
             for m in [0.0f64, 1.0] { b.extend_from_slice(&m.to_le_bytes()); b.extend_from_slice(&u64::MAX.to_le_bytes()); }
             format!("{:?}", TDigestMut::deserialize(&b, false).map(|s| s.total_weight()))
+        }
+        "td_rank_left_tail" | "td_quantile_heavy_last" => {
+            // valid image: centroids (10.0,w=6) (50.0,w=1) (90.0,w=9), min 0, max 100
+            let mut b = vec![2u8, 1, 20]; b.extend_from_slice(&100u16.to_le_bytes()); b.push(0); b.extend_from_slice(&0u16.to_le_bytes());
+            b.extend_from_slice(&3u32.to_le_bytes()); b.extend_from_slice(&0u32.to_le_bytes());
+            b.extend_from_slice(&0f64.to_le_bytes()); b.extend_from_slice(&100f64.to_le_bytes());
+            for (m, w) in [(10.0f64, 6u64), (50.0, 1), (90.0, 9)] { b.extend_from_slice(&m.to_le_bytes()); b.extend_from_slice(&w.to_le_bytes()); }
+            let mut t = TDigestMut::deserialize(&b, false).unwrap();
+            if name == "td_rank_left_tail" { format!("rank(5.0)={:?} rank(0.0)={:?} rank(9.9)={:?}", t.rank(5.0), t.rank(0.0), t.rank(9.9)) }
+            else { format!("q(0.8)={:?} q(0.9)={:?} q(0.95)={:?} max={:?}", t.quantile(0.8), t.quantile(0.9), t.quantile(0.95), t.max_value()) }
+        }
+        "td_cdf_empty" => {
+            let mut t = TDigestMut::new(100);
+            for i in 0..100 { t.update(i as f64); }
+            format!("cdf={:?} pmf={:?}", t.cdf(&[]), t.pmf(&[]))
         }
         // ---------------- bloom
         "bloom_nonempty_huge" => {
@@ -130,6 +185,16 @@ fn run(name: &str) -> String {
             b.extend_from_slice(&5u64.to_le_bytes());
             b.extend_from_slice(&u32::MAX.to_le_bytes());
             format!("{:?}", FrequentItemsSketch::<String>::deserialize(&b).map(|s| s.total_weight()))
+        }
+        "fi_merge_purged_empty" => {
+            // 7 distinct items of weight 1 into map size 8 (capacity 6): the purge removes every counter
+            let mut a = FrequentItemsSketch::<i64>::new(8);
+            for i in 0..7 { a.update(i); }
+            let mut b = FrequentItemsSketch::<i64>::new(8);
+            b.update(100);
+            let before = (a.num_active_items(), a.total_weight(), a.maximum_error());
+            b.merge(&a);
+            format!("a(active,weight,err)={:?} merged total_weight={} ub(0)={} max_err={}", before, b.total_weight(), b.upper_bound(&0), b.maximum_error())
         }
         // ---------------- cpc
         "cpc_lgk21_serialize" => {
